@@ -1728,6 +1728,10 @@ class SSHConnection(SSHPacketHandler, asyncio.Protocol):
                 # Buffer received data until current packet is processed
                 self._recv_handler = lambda: False
 
+                if _verif.sink:
+                    result = _verif.traced(result, 'pkt_handled', conn=self,
+                                           pkttype=pkttype, seq=seq)
+
                 task = self.create_task(result)
                 task.add_done_callback(functools.partial(
                     self._finish_recv_packet, pkttype, seq, is_async=True))
